@@ -558,6 +558,7 @@ func (h *H) Run(cc core.Cfg, sim *simrt.Sim) *core.Outcome {
 	o := &core.Outcome{NonTrivial: map[string]bool{}, Probes: map[string]int{}}
 	r := &run{cfg: cfg, o: o, lines: map[int]*lineInfo{}, pend: map[int]*lineInfo{}, sizes: map[uint64]int64{}, acked: map[int]bool{}, pendingSend: map[sendKey][]int{}, passed: map[passKey]bool{}}
 	verdict := false
+	defer file.VerifForgetAll() // process-global registries of the plugin package (see overlay)
 	reason := sim.Run(func() {
 		fs := simos.NewFS()
 		r.fs = fs
